@@ -4,6 +4,7 @@ import (
 	"errors"
 	"fmt"
 	"io"
+	"strings"
 	"testing"
 
 	"github.com/parquet-go/parquet-go"
@@ -34,6 +35,7 @@ type Case struct {
 	SkipIndex bool           `json:"skipindex,omitempty"`
 	Async     bool           `json:"async,omitempty"`
 	Ops       []ROp          `json:"ops"`
+	Enc       int            `json:"enc,omitempty"`  // file kinds: 1 encrypted footer, 2 plaintext footer (one key for everything): seeks re-synchronise the page ordinal used by the decryptor
 	Nest      int            `json:"nest,omitempty"` // MultiRowGroup: 0 flat, 1 Multi(Multi(head), tail...), 2 Multi(first, Multi(rest)), 3 Multi(Multi(a), Multi(b))
 }
 
@@ -56,6 +58,9 @@ func genCase(t *rapid.T) Case {
 	}
 	c.SkipIndex = rapid.IntRange(0, 3).Draw(t, "skipindex") == 0
 	c.Async = rapid.IntRange(0, 3).Draw(t, "async") == 0
+	if c.Kind != "Buffer" && rapid.IntRange(0, 4).Draw(t, "enc") == 0 {
+		c.Enc = rapid.IntRange(1, 2).Draw(t, "encmode")
+	}
 	nops := rapid.IntRange(1, 30).Draw(t, "nops")
 	for i := 0; i < nops; i++ {
 		if rapid.IntRange(0, 9).Draw(t, "isseek") < 5 {
@@ -128,12 +133,20 @@ func runCase(c Case, o *kit.Obs) *kit.Failure {
 		}
 		rg = b
 	} else {
-		data, err := pq.WriteFile(&c.Schema, cols, rows, c.Opts, nil)
+		var wo []parquet.WriterOption
+		var fo []parquet.FileOption
+		if c.Enc > 0 {
+			k := pq.FooterKeyOnly("0123456789abcdef")
+			wo = append(wo, parquet.WithEncryption(&parquet.EncryptionConfig{FooterKey: k, EncryptedFooter: c.Enc == 1}))
+			fo = append(fo, parquet.WithDecryption(k))
+			feat = strings.Replace(feat, "}", ",encrypted}", 1)
+			o.Class("encrypted")
+		}
+		data, err := pq.WriteFileWith(&c.Schema, cols, rows, c.Opts, nil, wo...)
 		if err != nil {
 			o.Rejected()
 			return nil
 		}
-		var fo []parquet.FileOption
 		if c.SkipIndex {
 			fo = append(fo, parquet.SkipPageIndex(true))
 		}
